@@ -5022,20 +5022,22 @@ func toStatementApi(s *oc.Statement) *api.Statement {
 			}
 		}(),
 		ExtCommunity: func() *api.CommunityAction {
-			if len(s.Actions.BgpActions.SetExtCommunity.SetExtCommunityMethod.CommunitiesList) == 0 {
+			t := community_action(s.Actions.BgpActions.SetExtCommunity.Options)
+			if t == api.CommunityAction_TYPE_UNSPECIFIED {
 				return nil
 			}
 			return &api.CommunityAction{
-				Type:        community_action(s.Actions.BgpActions.SetExtCommunity.Options),
+				Type:        t,
 				Communities: s.Actions.BgpActions.SetExtCommunity.SetExtCommunityMethod.CommunitiesList,
 			}
 		}(),
 		LargeCommunity: func() *api.CommunityAction {
-			if len(s.Actions.BgpActions.SetLargeCommunity.SetLargeCommunityMethod.CommunitiesList) == 0 {
+			t := community_action(string(s.Actions.BgpActions.SetLargeCommunity.Options))
+			if t == api.CommunityAction_TYPE_UNSPECIFIED {
 				return nil
 			}
 			return &api.CommunityAction{
-				Type:        community_action(string(s.Actions.BgpActions.SetLargeCommunity.Options)),
+				Type:        t,
 				Communities: s.Actions.BgpActions.SetLargeCommunity.SetLargeCommunityMethod.CommunitiesList,
 			}
 		}(),
